@@ -732,6 +732,8 @@ pub enum MChoice {
     One,
     Max,
     Absent,
+    /// half of L
+    Half,
 }
 
 #[derive(Clone, Debug, Serialize, Deserialize)]
@@ -924,6 +926,34 @@ impl Property for C12 {
         tier.pick(20_000, 200_000)
     }
 
+    /// publishes whose Remaining Length needs four bytes (2 MiB and more) against M in
+    /// {L-1, L, L+1, L/2}
+    fn exhaustive(_tier: Tier, worker: usize, workers: usize) -> Box<dyn Iterator<Item = C12Case>> {
+        let mut v = vec![];
+        let mut k = 0usize;
+        for pad in [2_097_130usize, 2_097_152, 3_145_728] {
+            for qos in [0u8, 1] {
+                for m in [MChoice::LMinus1, MChoice::L, MChoice::LPlus1, MChoice::Half] {
+                    k += 1;
+                    if k % workers.max(1) != worker {
+                        continue;
+                    }
+                    v.push(C12Case {
+                        op: OpSpec::Publish(PublishSpec { qos: Some(qos), topic: Some("c12/large".into()), payload: Some(vec![0x5a; pad]), ..Default::default() }),
+                        m,
+                        client_max: None,
+                        history: None,
+                        prologue: 0,
+                        previous: None,
+                        rerun_after_read_error: false,
+                        issued_in_gap: false,
+                    });
+                }
+            }
+        }
+        Box::new(v.into_iter())
+    }
+
     fn assumptions() -> Vec<String> {
         vec![
             "internal residue of a refused request (stale subscription entry, pending acknowledgement) is checked only through its observable consequences in the follow-up probe".into(),
@@ -963,6 +993,7 @@ impl Property for C12 {
             MChoice::L => Some(l as u32),
             MChoice::LPlus1 => Some((l + 1) as u32),
             MChoice::One => Some(1),
+            MChoice::Half => Some((l / 2) as u32),
             MChoice::Max => Some(u32::MAX),
             MChoice::Absent => None,
         };
